@@ -141,14 +141,15 @@ def run_property(pid, tier="quick", replay=None, repo_root=None, write_evidence=
         say("  [note] %-10s %s  (%s) %s" % (r.rule, r.func + " :: " + r.role, r.where, r.detail))
 
     replay_dir = os.path.join(EVIDENCE, "replay")
-    if new_viol:
+    if new_viol and write_evidence:
         os.makedirs(replay_dir, exist_ok=True)
     for r in known_viol:
         say("KNOWN-FINDING: property=%s %s %s" % (pid, r.key, known[r.key]))
     for i, r in enumerate(new_viol):
         path = os.path.join(replay_dir, "%s-%d.json" % (pid, i))
-        with open(path, "w") as f:
-            json.dump(dict(r.to_json(), key=r.key, property=pid, repo_digest=repo.digest()), f, indent=1)
+        if write_evidence:
+            with open(path, "w") as f:
+                json.dump(dict(r.to_json(), key=r.key, property=pid, repo_digest=repo.digest()), f, indent=1)
         say("VIOLATION property=%s replay=%s" % (pid, path))
         say("   rule=%s site=%s :: %s at %s" % (r.rule, r.func, r.role, r.where))
         say("   %s" % r.detail)
